@@ -28,6 +28,13 @@ fn main() {
     if args.len() < 2 {
         usage();
     }
+    if args[1] == "hash-order" {
+        // selftest helper: the iteration order of a std HashSet in THIS process (a function of the
+        // process's hash seeds, which the getrandom shim owns)
+        let s: std::collections::HashSet<&str> = ["a", "b", "c", "d", "e", "f", "g"].iter().copied().collect();
+        println!("{}", s.iter().copied().collect::<Vec<_>>().join(""));
+        return;
+    }
     silence_stdio();
     run::install_panic_hook();
     let n_threads = std::env::var("TTV_THREADS")
